@@ -83,6 +83,8 @@ def run_lead(ctx) -> RuleResult:
                 alt = (".astype(bool)" in mtext or "numpy.not_equal(" in mtext or "numpy.asarray(" in mtext and "bool" in mtext) \
                     and ".coefficients" in mtext
                 known_wrong = isinstance(mask, ast.Compare) and len(mask.ops) == 1 and not isinstance(mask.ops[0], ast.NotEq)
+                # a tolerance test is not 'non-zero': a tiny leading coefficient would be skipped
+                known_wrong = known_wrong or any(t in mtext for t in ("numpy.isclose(", "numpy.allclose(", "numpy.abs(", "abs("))
                 if alt:
                     ok = True
                 elif not known_wrong:
